@@ -19,6 +19,10 @@ REPO = os.environ.get('VERIF_REPO', '/repo')
 VX = os.environ.get('VERIF_VX', os.path.join(VERIF, 'target', 'release', 'vx'))
 
 
+GHOST_OPEN = '/*vfg<*/'
+GHOST_CLOSE = '/*>vfg*/'
+
+
 class Inconclusive(Exception):
     """Anything that is not a verdict (lost anchor, unsupported construct, ...) -> exit 2."""
 
@@ -927,6 +931,7 @@ class World:
         self.counters['A1'] += 1 if variant == 'main' else 0
         body_start = out.pos()
         inner_labels = []
+        ghost_spans = []
         if bodiless:
             out.w(';\n')
         elif ext:
@@ -937,6 +942,7 @@ class World:
             out.w(body.decode())
             out.w('\n')
             inner_labels = [(lab, base + s, base + e) for lab, s, e in inner]
+            ghost_spans = [[base + a, base + b] for a, b in self._ghost]
         end_fn = out.pos()
         mname = re.search(r'\bfn\s+(\w+)', head)
         out_name = mname.group(1) if mname else cname.split('::')[-1]
@@ -949,6 +955,7 @@ class World:
             'out_span': [start_fn, end_fn], 'body_span': [body_start, end_fn],
             'labels': [{'label': l, 'span': [s, e]} for l, s, e in label_spans],
             'inner_labels': [{'label': l, 'span': [s, e]} for l, s, e in inner_labels],
+            'ghost_spans': ghost_spans,
             'contract': os.path.relpath(c.origin, VERIF),
             'dropped_hints': self.dropped_hints.get(cname, []),
         })
@@ -974,11 +981,11 @@ class World:
                         body_start = mm[k + 1]
                     else:
                         body_end = mm[k + 1]
-            edits.append((lp['body'][0], lp['body'][0], ('\n' + inv_text + '\n').encode()))
+            edits.append((lp['body'][0], lp['body'][0], ('\n' + GHOST_OPEN + inv_text + GHOST_CLOSE + '\n').encode()))
             if body_start.strip():
-                edits.append((lp['body'][0] + 1, lp['body'][0] + 1, ('\n' + body_start + '\n').encode()))
+                edits.append((lp['body'][0] + 1, lp['body'][0] + 1, ('\n' + GHOST_OPEN + body_start + GHOST_CLOSE + '\n').encode()))
             if body_end.strip():
-                edits.append((lp['body'][1] - 1, lp['body'][1] - 1, ('\n' + body_end + '\n').encode()))
+                edits.append((lp['body'][1] - 1, lp['body'][1] - 1, ('\n' + GHOST_OPEN + body_end + GHOST_CLOSE + '\n').encode()))
             self.counters['A2'] += 1
         unl = [l['ordinal'] for l in it['loops'] if l['ordinal'] not in c.loops]
         if unl:
@@ -1033,7 +1040,7 @@ class World:
                         j += 1
                     if src[j:j + 1] == b';':
                         pos = j + 1
-            edits.append((pos, pos, ('\n' + text + '\n').encode()))
+            edits.append((pos, pos, ('\n' + GHOST_OPEN + text + GHOST_CLOSE + '\n').encode()))
             self.counters['A4'] += 1
         # R7 bind the receiver of an iterator method call so that a ghost hint can name it
         for meth, n, text in c.binds:
@@ -1051,7 +1058,7 @@ class World:
             if dot < 0:
                 raise Inconclusive(f'lost anchor: cannot find the method dot of .{meth}() in {cname}')
             edits.append((re_, dot + 1, b'; let ghost vf_rem = vf_it.remaining(); let vf_r = vf_it.'))
-            edits.append((ce, ce, ('; proof {\n' + text + '\n} vf_r }').encode()))
+            edits.append((ce, ce, ('; proof {\n' + GHOST_OPEN + text + GHOST_CLOSE + '\n} vf_r }').encode()))
             self.counters['R7'] += 1
         # R3 format!
         for mc in it['macros']:
@@ -1124,6 +1131,19 @@ class World:
                 e_char = min(e_char, marks[i + 1][0])
             for lab in labs:
                 res.append((lab, len(txt[:cs].encode()), len(txt[:e_char].encode())))
+        # spans of ghost text inserted by the contract (hints, invariants): a failure located there is a
+        # broken proof step, not an executable panic
+        self._ghost = []
+        pos = 0
+        while True:
+            a = body.find(GHOST_OPEN.encode(), pos)
+            if a < 0:
+                break
+            b = body.find(GHOST_CLOSE.encode(), a)
+            if b < 0:
+                break
+            self._ghost.append((a, b))
+            pos = b + 1
         return body, res
 
 
